@@ -36,6 +36,21 @@ theorem C17_static_locals : staticLocals = [("cbor_load", "callbacks")] := by de
 theorem C17_workers_write_no_global :
     (globalWrites.filter fun w => w.1 != "cbor_set_allocs") = [] := by decide +kernel
 
+/-- C-library functions that keep no hidden state of their own (MT-Safe in POSIX terms: no static buffer, no global cursor, no
+locale / environment mutation; the stdio functions lock the caller's `FILE`) plus compiler builtins for float constants / predicates, the
+allocator hooks, the assertion hook of the verification build, and calls through a client-supplied callback pointer -/
+def reentrant : List String :=
+  ["(indirect)", "__verif_assert", "_cbor_free", "_cbor_malloc", "_cbor_realloc",
+   "__builtin_inff", "__builtin_inf", "__builtin_isnan", "__builtin_nanf", "__builtin_nan", "__builtin_huge_valf", "__builtin_huge_val", "__builtin_expect", "__builtin_unreachable",
+   "memcpy", "memmove", "memset", "memcmp", "memchr", "strlen", "strnlen", "strcmp", "strncmp",
+   "ldexp", "ldexpf", "frexp", "frexpf", "fabs", "fabsf", "isnan", "isinf", "abs", "labs",
+   "fprintf", "fwrite", "fputs", "fputc", "snprintf", "abort"]
+
+/-- **No hidden state behind the library's back either**: every function the library calls that it does not define itself is on the
+list above — in particular nothing like `strtok`, `rand`, `localeconv`, `setlocale`, `getenv`/`setenv`, `asctime`, `gmtime`, `strerror`,
+which keep process-wide state -/
+theorem C17_only_reentrant_externals : (names.drop nDefined).all (fun n => reentrant.contains n) = true := by decide +kernel
+
 /-- **Every schedule.**  Threads that share no item: under every interleaving of their API calls (decode, build, copy,
 container operations, release — the whole history language of the heap model), each thread ends in the state and
 obtains the results of running its own calls alone. -/
